@@ -9,7 +9,7 @@ import ast
 
 from sa import cfg as cfgmod
 from sa.cfg import ENTRY, EXIT_EXC, EXIT_RET, walk_expr
-from sa.core import AnalysisError, call_name, const, text
+from sa.core import AnalysisError, call_name, const, resolve_collection, text
 
 SHEET = 'cssutils/css/cssstylesheet.py'
 RULE = 'cssutils/css/cssrule.py'
@@ -435,11 +435,17 @@ def _paths_without(g, ins, target):
 DOC_KINDS = {'CSSCharsetRule', 'CSSFontFaceRule', 'CSSImportRule', 'CSSNamespaceRule'}
 
 
-def denied(fn):
+def denied(m, fn):
     out = set()
     for x in ast.walk(fn):
         if isinstance(x, ast.Call) and call_name(x) == 'isinstance' and len(x.args) == 2 and text(x.args[0]) == 'rule':
-            out.add(text(x.args[1]).split('.')[-1])
+            kinds = [x.args[1]] if isinstance(x.args[1], ast.Attribute) else resolve_collection(m, fn, x.args[1])
+            if kinds is None and isinstance(x.args[1], ast.Name) and x.args[1].id[:1].isupper():
+                kinds = [x.args[1]]  # a class name
+            if kinds is None:
+                raise AnalysisError(f'{fn.name}: class argument of `{text(x)}` not resolved')
+            for k in kinds:
+                out.add(text(k).split('.')[-1])
     return out
 
 
@@ -447,7 +453,7 @@ def r09e(chk, rid='R09.e'):
     chk.rule(rid, 'nested rule lists deny the document-level kinds: both insertRule overrides reject charset/import/namespace/font-face; @media also margin rules; @page also media and page; rejection happens before _finishInsertRule; the parse-time dispatch of @media rejects the same at-keywords')
     for rel, q, extra in ((MEDIA, 'CSSMediaRule.insertRule', {'MarginRule'}), (PAGE, 'CSSPageRule.insertRule', {'CSSPageRule', 'CSSMediaRule'})):
         fn = chk.repo.fn(rel, q)
-        d = denied(fn)
+        d = denied(chk.repo.mod(rel), fn)
         want = DOC_KINDS | extra
         chk.ob(rid, rel, q, f'rejects {sorted(want)}', want <= d, f'not rejected: {sorted(want - d)}')
         g = cfgmod.CFG(fn)
@@ -466,9 +472,12 @@ def r09e(chk, rid='R09.e'):
     f = m.get('CSSMediaRule._setCssText.atrule')
     tup = None
     for x in ast.walk(f):
-        if isinstance(x, ast.Compare) and isinstance(x.ops[0], ast.In) and isinstance(x.comparators[0], ast.Tuple):
-            vals = [const(e) for e in x.comparators[0].elts]
-            if all(isinstance(v, str) for v in vals) and any(v.startswith('@') for v in vals):
+        if isinstance(x, ast.Compare) and isinstance(x.ops[0], ast.In):
+            elts = resolve_collection(m, f, x.comparators[0])
+            if elts is None:
+                continue
+            vals = [const(e) for e in elts]
+            if vals and all(isinstance(v, str) for v in vals) and any(v.startswith('@') for v in vals):
                 tup = set(vals)
     if tup is None:
         raise AnalysisError('CSSMediaRule atrule: deny tuple not found')
